@@ -153,7 +153,9 @@ CCDUMP = """import json, os, sys
 json.dump(sys.argv[2:], open(sys.argv[1], 'w'))
 """
 CARGS = ['-DS="a b"', "-DQ='it'", '-DD=$x$$', '-DH=#;*', '-DB=a\\b', '-DBQ="c:\\dir\\"', '-DU=é', '-DE=', '-Wno-error=x y', '-DP=%PATH%~`', '/DW=a\\b c']
-LARGS = ['-Wl,--defsym=s=1', '-Wl,-rpath,$ORIGIN/a b', "-Wl,-rpath,'q'", '-Wl,--build-id=0xAB;#', '-L/x y/é', '-Wl,-z,back\\slash']
+# (no -L / -l here: CompilerArgs hoists and de-duplicates those by design — property C13 — so their position relative to other
+# arguments is not preserved; demanding it was a false alarm of the first version of this layer)
+LARGS = ['-Wl,--defsym=s=1', '-Wl,-rpath,$ORIGIN/a b', "-Wl,-rpath,'q'", '-Wl,--build-id=0xAB;#', '-Wl,-rpath-link,/x y/é', '-Wl,-z,back\\slash']
 
 
 def _cc_chunk(chunk):
